@@ -3,9 +3,15 @@ C14 — obligations that tie the hand-written model `Model/Health.lean` to table
 (`Gen/Health.lean`, extractor harness/extract/health.py). A source change in any of these places makes one of these
 theorems fail to check.
 -/
-import PrimaiteModel.Model.Health
+import PrimaiteModel.Model.HealthDyn
 import PrimaiteModel.Gen.Health
 namespace Primaite.Health
+
+def showSwHName : SwH → String
+  | .unused => "UNUSED" | .good => "GOOD" | .fixing => "FIXING" | .compromised => "COMPROMISED" | .overwhelmed => "OVERWHELMED"
+def showFsHName : FsH → String
+  | .none => "NONE" | .good => "GOOD" | .compromised => "COMPROMISED" | .corrupt => "CORRUPT"
+  | .restoring => "RESTORING" | .repairing => "REPAIRING"
 
 def SwH.all : List SwH := [.unused, .good, .fixing, .compromised, .overwhelmed]
 def SwH.pyName : SwH → String
@@ -110,7 +116,7 @@ theorem C14_gen_writers : Gen.Health.writers = [
   "simulator/system/services/database/database_service.py:DatabaseService._process_sql:database_folder.health_status<-FileSystemItemHealthStatus.CORRUPT",
   "simulator/system/services/database/database_service.py:DatabaseService._process_sql:self.db_file.health_status<-FileSystemItemHealthStatus.COMPROMISED",
   "simulator/system/services/database/database_service.py:DatabaseService._process_sql:self.db_file.health_status<-FileSystemItemHealthStatus.CORRUPT",
-  -- database restore: the replacement file inherits the old visible value (not modelled; rig scenario `db-restore`)
+  -- database restore: the replacement file inherits the old visible value → DOp.dbReplace (Model/HealthDyn.lean, C14_dyn_db_replace)
   "simulator/system/services/database/database_service.py:DatabaseService.restore_backup:self.db_file.visible_health_status<-old_visible_state",
   "simulator/system/services/database/database_service.py:DatabaseService.restore_backup:set_health_state(SoftwareHealthState.GOOD)",
   "simulator/system/services/ftp/ftp_service.py:FTPServiceABC._store_data:file.health_status<-health_status",
@@ -128,5 +134,19 @@ theorem C14_gen_writers : Gen.Health.writers = [
   "simulator/system/software.py:Software.fix:set_health_state(SoftwareHealthState.FIXING)",
   "simulator/system/software.py:Software.scan:self.health_state_visible<-self.health_state_actual",
   "simulator/system/software.py:Software.set_health_state:self.health_state_actual<-health_state"] := rfl
+
+/-- **Gen obligation (dynamic layer).** The initial values the model gives to freshly created items are the class defaults of
+the source: a new software object shows UNUSED, a created file is GOOD / shows NONE, a created folder is GOOD / shows NONE
+with idle countdowns and the default scan / restore durations. -/
+theorem C14_gen_fresh_items :
+    (∀ s : SwSpec, showSwHName s.construct.visible = Gen.Health.swVisibleDefault) ∧
+    showFsHName (freshFile "f").actual = Gen.Health.itemHealthDefault ∧
+    showFsHName (freshFile "f").visible = Gen.Health.itemVisibleDefault ∧
+    folderScanDefault = Gen.Health.folderScanDurationDefault ∧ folderRestoreDefault = Gen.Health.folderRestoreDurationDefault ∧
+    (∀ d : DNode, (d.freshFolder "F").scanCd = Gen.Health.folderScanCountdownDefault ∧
+      (d.freshFolder "F").restoreCd = Gen.Health.folderRestoreCountdownDefault ∧
+      showFsHName (d.freshFolder "F").actual = Gen.Health.itemHealthDefault ∧
+      showFsHName (d.freshFolder "F").visible = Gen.Health.itemVisibleDefault) := by
+  refine ⟨fun _ => rfl, rfl, rfl, rfl, rfl, fun _ => ⟨rfl, rfl, rfl, rfl⟩⟩
 
 end Primaite.Health
